@@ -1008,6 +1008,13 @@ pub fn run_property(e: &dyn DynEngine, o: RunOpts) -> i32 {
         eprintln!("HARNESS-ERROR nothing explored");
         return 2;
     }
+    // the workload is valid by construction; if clap's own validity gate (build() under debug assertions)
+    // rejects a large share of it, the check cannot decide anything and says so instead of passing
+    let rejected = m.sum.counters.get("misc.specs_rejected_by_gate").copied().unwrap_or(0);
+    if violation_lines.is_empty() && rejected * 10 > m.sum.evaluations * 3 {
+        eprintln!("HARNESS-ERROR clap's validity gate rejected {rejected} of {} generated command definitions: cannot decide", m.sum.evaluations);
+        return 2;
+    }
     if !violation_lines.is_empty() {
         for l in &violation_lines {
             println!("{l}");
